@@ -31,12 +31,19 @@ int substdio_putflush(substdio *s, const char *buf, size_t len)
   return ideal_flush(s);
 }
 
+/* a read error that arrives after some bytes of the same call were already delivered is
+ * reported by the NEXT call on that stream (the real code returns the error from the call
+ * whose read() failed, and that call never also returns data) */
+static substdio *err_pending_on = 0;
+
 ssize_t substdio_get(substdio *s, char *buf, size_t len)
 {
   size_t n = 0;
   int c = -1;
+  if (err_pending_on == s) { err_pending_on = 0; return -1; }
   while (n < len) {
     c = ideal_getc(s);
+    if (c == -2 && n) { err_pending_on = s; break; }
     if (c < 0) break;
     buf[n++] = (char) c;
 #ifdef IDEAL_GET_ONE
